@@ -75,6 +75,9 @@ def run_copy(ser, stream, cuts):
                 break
             except StreamProtocolParseError as e:
                 out.append(["E", type(e.error).__name__, bytes(e.remaining_data).hex()])
+            except Exception as e:  # anything else escaping is a C06 violation
+                out.append(["X", type(e).__name__])
+                break
             d = None
         else:
             out.append(["LOOP"])
@@ -100,6 +103,9 @@ def run_buf(ser, stream, cuts, hint):
                     break
                 except StreamProtocolParseError as e:
                     out.append(["E", type(e.error).__name__, bytes(e.remaining_data).hex()])
+                except Exception as e:
+                    out.append(["X", type(e).__name__])
+                    break
                 n = None
             else:
                 out.append(["LOOP"])
@@ -155,7 +161,7 @@ def check_case(cfg, stream, cuts, hint):
     a, left = run_copy(ser, stream, cuts)
     b, _ = run_buf(make(cfg), stream, cuts, hint)
     if in_band(cfg, frames, tail):
-        if a != want:
+        if strip_rem(a) != strip_rem(want):
             return {"path": "copy", "got": a, "want": want, "rule": "in-band stream must decode frame by frame (C01/C02)"}
         if strip_rem(b) != strip_rem(want):
             return {"path": "buffered", "got": b, "want": want, "rule": "in-band stream must decode frame by frame (C01/C02)"}
